@@ -113,6 +113,10 @@ def check_packet(ctx, rng, is_data, kind, content_len, mut_budget):
             in_comps = list(comps)
             if ph is not None:
                 in_comps.insert(min(ph, len(in_comps)), rc.comp(2, bytes(32)))
+                if rng.random() < 0.4:
+                    # full-name layout: the parameters digest stays mid-name and an implicit digest comes last
+                    in_comps.append(rc.comp(1, gen.rand_bytes(rng, 32)))
+                    ctx.event('interest-name-ends-with-implicit-digest')
             wire = bytes(make_interest(in_comps, prm, payload if rng.random() < 0.8 else None, rec))
     except Exception as e:   # noqa
         ctx.report(f'encode-raises:{type(e).__name__}@{raising_site(e)[0]}', f'encoder raised {e!r}', w)
